@@ -80,7 +80,16 @@ def main(p):
                 h, data, err = c07.read_data(out)
                 if err:
                     bad.append(err)
-                elif h["nbits"] != nbits or data.shape != (n, nchans) or not np.array_equal(data.ravel(), x.astype(np.float64)):
+                else:
+                    try:
+                        f = FilReader(out)
+                        if f.header.nsamples != n:
+                            bad.append(f"the library's reader infers {f.header.nsamples} samples, {n} were written")
+                        elif not np.array_equal(np.asarray(f.read_block(0, n).data).T.ravel().astype(np.float64), x.astype(np.float64)):
+                            bad.append("FilReader.read_block differs from the samples written")
+                    except Exception as e:  # noqa: BLE001
+                        bad.append(f"the written file cannot be read back: {type(e).__name__}: {e}")
+                if not err and (h["nbits"] != nbits or data.shape != (n, nchans) or not np.array_equal(data.ravel(), x.astype(np.float64))):
                     bad.append(f"cwrite({dt} array) into a {nbits}-bit file: header nbits {h['nbits']}, read back shape {data.shape} for ({n},{nchans}) written, equal: {data.shape == (n, nchans) and bool(np.array_equal(data.ravel(), x.astype(np.float64)))}")
         else:
             a, b, nchans = p["item"]
